@@ -1105,6 +1105,11 @@ func (c *Client) CloseWithSMTPClient(client *smtp.Client) error {
 		return nil
 	}
 	if err := client.Quit(); err != nil {
+		// The server did not acknowledge the QUIT (or could not be reached anymore). We still need
+		// to release the connection, otherwise it would stay open until the process ends.
+		if client.HasConnection() {
+			_ = client.Close()
+		}
 		return fmt.Errorf("failed to close SMTP client: %w", err)
 	}
 
